@@ -42,6 +42,22 @@ def loose(a, b):
     return a == b
 
 
+def loose_open(a, b):
+    """like loose, for a snapshot taken while a value is still open: the open record may already have added a
+    field to the shared record type, which completed records then show as None"""
+    if isinstance(a, dict) and isinstance(b, dict):
+        extra = [k for k in a if k not in b]
+        return ([k for k in a if k in b] == list(b.keys()) and all(a[k] is None for k in extra)
+                and all(loose_open(a[k], b[k]) for k in b))
+    if isinstance(a, list) and isinstance(b, list):
+        return len(a) == len(b) and all(loose_open(x, y) for x, y in zip(a, b))
+    if isinstance(a, tuple) and isinstance(b, tuple):
+        return len(a) == len(b) and all(loose_open(x, y) for x, y in zip(a, b))
+    if isinstance(a, (dict, list, tuple)) or isinstance(b, (dict, list, tuple)):
+        return False
+    return loose(a, b)
+
+
 # a check returns None or (category, text); category decides which property the failure belongs to:
 #   value -> the family's own properties, validity -> C11, purity/crash -> C12
 def loose_unordered(a, b):
@@ -355,7 +371,7 @@ SORT_OPTLEAF = 0.3
 
 def fam_sort(rng):
     """C06: sort(axis) orders every list along the axis (NaN first, missing last) and leaves every other level untouched;
-    missing values at the leaves only (KF-C06-sort-missing-lists); lists of strings sort the strings as whole units by bytes"""
+    missing values at the leaves, missing lists at the outermost level only (deeper: KF-C06-sort-missing-lists); lists of strings sort the strings as whole units by bytes"""
     if rng.random() < 0.15:
         T, vals, lay = _string_sort_case(rng)
         asc, stable = rng.random() < 0.5, rng.random() < 0.5
@@ -364,6 +380,8 @@ def fam_sort(rng):
         return Case("sort -1 %d %d %s" % (asc, stable, lay.tokens()),
                     expect_value(ref, "sort(axis=-1, ascending=%s) of the strings %r" % (asc, vals), cmp=L.same), {"value": vals, "type": T})
     T = gen_pure(rng, rng.randint(0, 3), regular=0.0, optlist=SORT_OPTLIST, optleaf=SORT_OPTLEAF)
+    if T[0] == "list" and rng.random() < 0.3:
+        T = ("option", T)      # missing lists at the outermost level only (deeper ones: KF-C06-sort-missing-lists)
     vals = [L.gen_value(rng, T) for _ in range(L.toplen(rng, 0, 4))]
     lay = L.Enc(rng).encode(vals, T)
     depth = struct_depth(T)
@@ -794,11 +812,16 @@ def fam_concat(rng):
     numeric leaves are promoted as numpy.concatenate promotes them"""
     import numpy as np
     k = rng.randint(2, 3)
-    mode = rng.choice(["same", "same", "numeric", "numeric", "different"])
+    mode = rng.choice(["same", "same", "numeric", "numeric", "different", "rect"])
     T0 = gen_pure(rng, rng.randint(0, 2), regular=0.15, leafrec=0.0 if mode == "numeric" else 0.15)
+    if mode == "rect":
+        # blocks of one rectilinear shape (n, a, b[, c]): n-dimensional NumpyArrays most of the time
+        T0 = gen_rect(rng, rng.randint(1, 3), optleaf=0.0, size0=False)
     Ts = [T0]
     for _ in range(k - 1):
-        if mode == "same":
+        if mode == "rect":
+            Ts.append(_retype_leaf(T0, rng.choice(LEAF_ALL)) if rng.random() < 0.5 else T0)
+        elif mode == "same":
             Ts.append(T0)
         elif mode == "numeric":
             Ts.append(_retype_leaf(T0, rng.choice(LEAF_ALL)))
@@ -824,7 +847,6 @@ def fam_concat(rng):
         if t[0] == "regular":
             return ("regular", permute_fields(t[1]), t[2])
         return t
-    anyopt = any(has_option(t) for t in Ts)       # KF-C08-merge-option-with-indexed: IndexedArray nodes only without options
     arrays, lays = [], []
     for T in Ts:
         vals = [L.gen_value(rng, T) for _ in range(L.toplen(rng, 0, 3))]
@@ -843,7 +865,10 @@ def fam_concat(rng):
                     return reorder(v, t[1])
                 return v
             vv = [reorder(v, TT) for v in vals]
-        lays.append(L.Enc(rng, allow_indexed=not anyopt).encode(vv, TT))
+        enc = L.Enc(rng)
+        if mode == "rect":
+            enc.ndnumpy_p = 0.85
+        lays.append(enc.encode(vv, TT))
     ref = [v for a in arrays for v in a]      # (dict values compare by key set and values; order of the first array)
     mergebool = rng.random() < 0.5
     what = "concatenate(%r)" % (arrays,)
@@ -905,7 +930,7 @@ def fam_simplify_union(rng):
     rng.shuffle(members)
     T = ("union", members[:rng.randint(2, 3)])
     vals = [L.gen_value(rng, T) for _ in range(L.toplen(rng, 0, 6))]
-    lay = L.Enc(rng, allow_indexed=False).encode(vals, T)      # KF-C08-merge-option-with-indexed
+    lay = L.Enc(rng).encode(vals, T)
     if not isinstance(lay, L.UN):
         return None
     mergebool = rng.random() < 0.5
@@ -928,7 +953,24 @@ def fam_fields(rng):
     lay = L.Enc(rng).encode(vals, T)
     if rng.random() < 0.5:
         key = rng.choice(keys)
-        return Case("getitem_field %s %s" % (key, lay.tokens()), expect_value(R.project(vals, key), "x[%r] of %r" % (key, vals), cmp=L.same), {"value": vals})
+        inner = expect_value(R.project(vals, key), "x[%r] of %r" % (key, vals), cmp=L.same)
+        Tp = R._project_type(T, key)
+        wmin, wmax = _depth_range(Tp)
+        wb, wd = _branch_depth(Tp)
+
+        def check(r):
+            bad = inner(r)
+            if bad:
+                return bad
+            try:
+                pd, mn, mx, b, d = [int(x) for x in r.extra.split()]
+            except ValueError:
+                return ("value", "depth queries on the projected field not reported: %r" % r.extra)
+            if (pd, mn, mx, bool(b), d) != (wmin, wmin, wmax, wb, wd):
+                return ("value", "the field %r projected out of %r (field type %r) answers depth queries (purelist %d, minmax %r, branch %r), the values have depth %r, branch %r"
+                        % (key, vals, Tp, pd, (mn, mx), (bool(b), d), (wmin, wmax), (wb, wd)))
+            return None
+        return Case("getitem_field %s %s" % (key, lay.tokens()), check, {"value": vals})
     sel = [kk for kk in keys if rng.random() < 0.7] or [keys[0]]
     rng.shuffle(sel)
 
@@ -1396,7 +1438,7 @@ def _gen_pyvalue(rng, depth):
         keys = [k for k in ["x", "y", "z"] if rng.random() < 0.6] or ["x"]
         rng.shuffle(keys)
         return {k: _gen_pyvalue(rng, depth - 1) for k in keys}
-    return tuple(_gen_pyvalue(rng, depth - 1) for _ in range(rng.randint(1, 2)))
+    return tuple(_gen_pyvalue(rng, depth - 1) for _ in range(rng.choice([0, 1, 1, 2, 2, 3])))
 
 
 def _builder_cmds(v, out):
@@ -1472,12 +1514,19 @@ def fam_builder(rng):
     appended values up to the documented unification; every snapshot equals the values appended so far and never
     changes afterwards; the length is the number of top-level values"""
     vals = [_gen_pyvalue(rng, rng.randint(0, 3)) for _ in range(rng.randint(0, 6))]
-    cmds, snaps = [], []
+    cmds, snaps, mids = [], [], set()
     for i, v in enumerate(vals):
         if rng.random() < 0.25:
             cmds.append("snap")
             snaps.append(i)
-        _builder_cmds(v, cmds)
+        sub = []
+        _builder_cmds(v, sub)
+        if len(sub) > 1 and rng.random() < 0.15:
+            # a snapshot taken in the middle of a value shows the values completed so far, nothing of the open one
+            sub.insert(rng.randint(1, len(sub) - 1), "snap")
+            snaps.append(i)
+            mids.add(len(snaps) - 1)
+        cmds.extend(sub)
     initial = rng.choice([1, 2, 8, 1024])
     ref_final = builder_unify(vals)
     ref_snaps = [builder_unify(vals[:i]) for i in snaps]
@@ -1494,8 +1543,8 @@ def fam_builder(rng):
             return ("value", "ArrayBuilder over %r: final snapshot reads %r, the appended values (unified) are %r" % (vals, final, ref_final))
         if len(got_snaps) != len(ref_snaps):
             return ("value", "snapshot count")
-        for (first, again, verr), ref in zip(got_snaps, ref_snaps):
-            if not loose(first, ref):
+        for k_, ((first, again, verr), ref) in enumerate(zip(got_snaps, ref_snaps)):
+            if not (loose_open if k_ in mids else loose)(first, ref):
                 return ("value", "snapshot after %d values reads %r, expected %r" % (len(ref), first, ref))
             if not L.same(first, again):
                 return ("value", "a snapshot CHANGED after more data were appended: %r became %r" % (first, again))
@@ -1526,7 +1575,7 @@ class _Shim:
 
 
 VIRTUAL_SUBFAMILIES = ["tolist", "carry_range", "getitem_basic", "getitem_array", "reduce_ragged", "num", "flatten",
-                       "localindex", "rpad", "sort", "combinations"]
+                       "localindex", "rpad", "sort", "combinations", "fields", "fields"]
 
 
 def fam_virtual(rng):
@@ -1566,6 +1615,31 @@ def fam_virtual(rng):
             return ("value", "the first generation failed but the operation did not raise")
         return None
     return Case("virtual %d %d %d %d %s" % (keep, decl_length, decl_form, fail_first, inner.line), check, inner.info)
+
+
+SHAREDUNION_SUBFAMILIES = ["tolist", "carry_range", "num", "flatten", "localindex", "rpad", "fillna", "reduce_ragged",
+                           "sort", "argsort", "fields", "combinations", "getitem_basic"]
+
+
+def fam_union_shared(rng):
+    """C02/C08: a union whose branches are literally the same buffers (contents = {x, x}, every element taken from one
+    of the two at its own position) is the array x: every operation gives what it gives on x"""
+    sub = rng.choice(SHAREDUNION_SUBFAMILIES)
+    inner = None
+    for _ in range(10):
+        inner = FAMILIES[sub][0](rng)
+        if inner is not None:
+            break
+    if inner is None:
+        return None
+    pattern = rng.randint(1, 5)
+
+    def check(r):
+        bad = inner.check(r)
+        if bad:
+            return (bad[0], "on union[x, x] with shared buffers (tag pattern %d): %s" % (pattern, bad[1]))
+        return None
+    return Case("sharedunion %d %s" % (pattern, inner.line), check, inner.info)
 
 
 def fam_virtual_enforce(rng):
@@ -1622,7 +1696,7 @@ def fam_partitioned(rng):
     """C18: an IrregularlyPartitionedArray (any partitioning, empty partitions included) gives for getitem_at,
     getitem_range (any start/stop/step) and repartition the value of the concatenated array"""
     T = gen_pure(rng, rng.randint(0, 2))
-    n = rng.randint(0, 8)
+    n = rng.randint(0, 8) if rng.random() < 0.7 else rng.randint(9, 16)
     vals = [L.gen_value(rng, T) for _ in range(n)]
     lay = L.Enc(rng).encode(vals, T)
     k = rng.randint(1, 4)
@@ -1640,7 +1714,7 @@ def fam_partitioned(rng):
     if action == "range":
         a = rng.choice([None] + list(range(-n - 2, n + 3)))
         b = rng.choice([None] + list(range(-n - 2, n + 3)))
-        st = rng.choice([1, 1, 1, 2, 3, -1, -2, -3])
+        st = rng.choice([1, 1, 1, 2, 3, 4, 5, 7, -1, -1, -2, -3, -4, -5, -6, -7])
         ref = vals[a:b:st]
 
         def chk(r):
@@ -1738,6 +1812,7 @@ FAMILIES = {
     "concat": (fam_concat, ["C08"]),
     "astype": (fam_astype, ["C08"]),
     "simplify_union": (fam_simplify_union, ["C08"]),
+    "union_shared": (fam_union_shared, ["C02", "C08"]),
     "fields": (fam_fields, ["C01", "C10"]),
     "field_slices": (fam_field_slices, ["C10"]),
     "setitem_field": (fam_setitem_field, ["C10"]),
